@@ -321,6 +321,51 @@ def run_series(rep, rng, n):
                 rep.property_failure(case, "SeriesSchema: validating the returned series again changes it")
 
 
+def run_columns(rep, rng, n):
+    """a Column of the schema validated on its own with its parsing options (coercion, default): the returned frame conforms
+    to the same Column with the options switched off, and a second validation returns it unchanged"""
+    import pandera as pa
+    for _ in range(n):
+        c = gen_case(rng, drop_rate=0.0)
+        S, D = c["schema"], c["frame"]
+        present = {col["name"] for col in D["cols"]}
+        specs = [sp for sp in S["columns"] if sp["regex"] is None and sp["name"] in present and
+                 (sp["coerce"] or S["coerce"] or sp["default"] is not None)]
+        if not specs:
+            continue
+        sp = dict(rng.choice(specs))
+        sp["coerce"] = sp["coerce"] or S["coerce"]
+        case = {"entry": "Column", "spec": sp, "frame": D}
+        try:
+            _, col = A.column_of(sp)
+            _, bare = A.column_of(dict(sp, coerce=False, default=None))
+            df = A.frame_of(D)
+        except Exception:  # noqa: BLE001
+            continue
+        with warnings.catch_warnings():
+            warnings.simplefilter("ignore")
+            try:
+                out = col.validate(df.copy(), lazy=True)
+            except (pa.errors.SchemaErrors, pa.errors.SchemaError):
+                rep.count("column:rejected")
+                continue
+            except Exception as e:  # noqa: BLE001
+                rep.count("column:crash:" + type(e).__name__)
+                continue
+            rep.count("column:ok")
+            rep.case(case, nontrivial=True)
+            rep.evaluations += 1
+            try:
+                bare.validate(out.copy(), lazy=True)
+                again = col.validate(out.copy(), lazy=True)
+            except Exception as e:  # noqa: BLE001
+                rep.property_failure(case, f"Column.validate: the returned frame does not conform to the column without its parsing "
+                                           f"options ({type(e).__name__}; column dtype {out[sp['name']].dtype})")
+                continue
+            if not (again.equals(out) and list(map(str, again.dtypes)) == list(map(str, out.dtypes))):
+                rep.property_failure(case, "Column.validate: validating the returned frame again changes it")
+
+
 def run_polars(rep, rng, n):
     try:
         import polars as pl  # noqa: F401
@@ -347,6 +392,20 @@ def run_polars(rep, rng, n):
                 sp["default"] = rng.choice(A.POOL[sp["dtype"]])
                 sp["checks"] = []
                 sp["unique"] = False
+        if it % 4 == 2:
+            # directed: drop_invalid_rows with several row-level errors on one column, in different rows
+            c = P.gen_case(rng, regex_rate=0.0, index_schema_rate=0.0, conform_bias=1.0, max_rows=5)
+            S, D = c["schema"], c["frame"]
+            S.update(addMissing=False, strict="no", coerce=False, ordered=False, dropInvalid=True)
+            num = [sp for sp in S["columns"] if sp["dtype"] == "float64" and any(col["name"] == sp["name"] and
+                                                                             col["dtype"] == "float64" for col in D["cols"])]
+            if num and D["nrows"] >= 3:
+                sp = rng.choice(num)
+                sp.update(nullable=False, unique=False, coerce=False, default=None,
+                          checks=[{"b": {"ge": {"v": A.vflt(0)}}, "ignoreNa": True}, {"b": {"le": {"v": A.vflt(40)}}, "ignoreNa": True}])
+                col = next(col for col in D["cols"] if col["name"] == sp["name"])
+                i, j, k = rng.sample(range(D["nrows"]), 3)
+                col["vals"][i], col["vals"][j], col["vals"][k] = A.NULL, A.vflt(-8), A.vflt(400)
         if it % 4 == 1:
             # directed: a non-nullable regex column with a default and a missing value in a matched column, no other
             # parsing option
@@ -380,7 +439,8 @@ def run_polars(rep, rng, n):
                 s["default"] = None
         try:
             df = PA.frame_of(D)
-            schema = PA.schema_of(S, with_defaults=True, coerce=S["coerce"], add_missing_columns=S["addMissing"])
+            schema = PA.schema_of(S, with_defaults=True, coerce=S["coerce"], add_missing_columns=S["addMissing"],
+                                  drop_invalid_rows=bool(S.get("dropInvalid")))
             stripped = PA.schema_of(strip(S))
         except Exception:  # noqa: BLE001
             rep.count("polars:unbuildable")
@@ -402,8 +462,21 @@ def run_polars(rep, rng, n):
                 stripped.validate(out, lazy=True)
                 again = schema.validate(out, lazy=True)
             except Exception as e:  # noqa: BLE001
+                region = None
+                if S.get("dropInvalid"):
+                    # recorded: the polars backend drops rows even when an error that no row can be blamed for was collected
+                    # (missing / undeclared column, wrong dtype, a check that raised): it is swallowed and the frame returned
+                    try:
+                        PA.schema_of(S, with_defaults=True, coerce=S["coerce"], add_missing_columns=S["addMissing"]).validate(df, lazy=True)
+                    except pap.errors.SchemaErrors as e2:
+                        nonrow = {"COLUMN_NOT_IN_DATAFRAME", "COLUMN_NOT_IN_SCHEMA", "COLUMN_NOT_ORDERED", "WRONG_DATATYPE",
+                                  "CHECK_ERROR", "DATATYPE_COERCION", "DUPLICATES"}
+                        if any(x.reason_code.name in nonrow for x in e2.schema_errors):
+                            region = "K_C03_polarsDropSwallowsNonRowErrors"
+                    except Exception:  # noqa: BLE001
+                        pass
                 rep.property_failure(c2, f"polars: the returned frame does not conform ({type(e).__name__}: {str(e)[:120]})",
-                                     region=None)
+                                     region=region)
                 continue
             if not again.equals(out):
                 rep.property_failure(c2, "polars: validating the returned frame again changes it")
@@ -423,6 +496,7 @@ def run(tier, replay=None):
     n = 1000 if tier == "quick" else 25000
     run_cases(rep, [c for c in corpus_cases(PROP) if "schema" in c] + [gen_case(rng) for _ in range(n)])
     run_series(rep, rng, n // 4)
+    run_columns(rep, rng, n // 3)
     run_polars(rep, rng, n // 4)
     return rep.finish(
         rule="C01's generator plus every subset of {column/frame/index coercion (int64, float64, str targets from "
